@@ -37,6 +37,8 @@ pub struct Case {
     pub batch: Vec<Verdict>,
     pub repair: Vec<Verdict>,
     pub seed: u64,
+    /// per node id: simulated latency of its storage calls in ms (absent = none)
+    pub storage_latency_ms: BTreeMap<u8, u64>,
 }
 
 pub fn gen_verdict(src: &mut Src, lossy: u32) -> Verdict {
@@ -155,7 +157,16 @@ impl Prop for Cluster {
         let direct = (0..12).map(|_| gen_verdict(src, lossy)).collect();
         let batch = (0..8).map(|_| gen_verdict(src, lossy)).collect();
         let repair = (0..10).map(|_| gen_verdict(src, lossy / 2)).collect();
-        Case { nodes, skew_ms, repair_secs: *src.pick(&[5u64, 2, 30]), ops, direct, batch, repair, seed: src.word() }
+        let repair_secs = *src.pick(&[5u64, 2, 30]);
+        let seed = src.word();
+        let mut storage_latency_ms = BTreeMap::new();
+        for (id, _) in &nodes {
+            let ms = *src.pick(&[0u64, 0, 0, 1, 4, 15]);
+            if ms > 0 {
+                storage_latency_ms.insert(*id, ms);
+            }
+        }
+        Case { nodes, skew_ms, repair_secs, ops, direct, batch, repair, seed, storage_latency_ms }
     }
 
     fn run(&self, case: &Case) -> Outcome {
@@ -167,6 +178,7 @@ impl Prop for Cluster {
             "nodes": case.nodes,
             "clock_skew_ms": case.skew_ms,
             "repair_interval_s": case.repair_secs,
+            "storage_latency_ms": case.storage_latency_ms,
             "ops": case.ops.iter().map(op_json).collect::<Vec<_>>(),
             "direct_message_fates": case.direct.iter().map(|v| format!("{:?}", v)).collect::<Vec<_>>(),
             "batch_message_fates": case.batch.iter().map(|v| format!("{:?}", v)).collect::<Vec<_>>(),
@@ -176,7 +188,7 @@ impl Prop for Cluster {
     }
 
     fn rule(&self) -> &'static str {
-        "2-4 real DatacakeNodes (1-2 data centres, per-node clock skew up to 10 min) with the real eventual-consistency \
+        "2-4 real DatacakeNodes (1-2 data centres, per-node clock skew up to 10 min, per-node storage latency 0-15 ms) with the real eventual-consistency \
          extension in one paused-time runtime; 1-12 operations put/put_many/del/del_many through the public handles at \
          generated nodes, keyspaces, keys and consistency levels (one step in five issues 2-3 of them concurrently), \
          interleaved with time advances of 0-6 s; every direct, \
@@ -360,7 +372,7 @@ fn check_converged_docs(nodes: &[NodeH], n_ks: usize, when: &str) -> Result<(), 
 }
 
 async fn run(case: &Case, net: e3::Net) -> Outcome {
-    let layout = Layout { nodes: case.nodes.clone(), repair_interval: Duration::from_secs(case.repair_secs) };
+    let layout = Layout { nodes: case.nodes.clone(), repair_interval: Duration::from_secs(case.repair_secs), storage_latency_ms: case.storage_latency_ms.clone() };
     let nodes = e3::start_cluster(&layout).await;
     {
         let mut n = net.borrow_mut();
@@ -413,6 +425,9 @@ async fn run(case: &Case, net: e3::Net) -> Outcome {
     }
     if concurrent {
         labels.push("concurrent_ops");
+    }
+    if !case.storage_latency_ms.is_empty() {
+        labels.push("slow_storage");
     }
     if case.nodes.iter().any(|(_, dc)| dc == "dc-b") {
         labels.push("two_dcs");
